@@ -79,7 +79,10 @@ CONFIGS = {
     "self": ["NatSpawn", "NatUnpark", "Flush", "IqExit", "HoldSelf", "HoldDetach", "HoldAwait", "Park", "Pause", "SelfYield",
              "Return"],
     # the same steps freely combined (own handle taken by any coroutine at any time, hand-made yield)
-    "selffree": ["NatSpawn", "NatUnpark", "Flush", "IqExit", "HoldSelf", "HoldDetach", "HoldAwait", "Park", "Return"],
+    # plus `co_await` of a STOPPED thread pool (cancelled at once: the coroutine goes through the ready queue, behind
+    # whatever is ready already, and sees await_canceled_exception when its turn comes)
+    "selffree": ["NatSpawn", "NatUnpark", "Flush", "IqExit", "HoldSelf", "HoldDetach", "HoldAwait", "Park", "Return",
+                 "SelfYield", "PoolCancelled"],
     # exceptional exits: the function given to install_queue_and_call / create_suspend_point by NATIVE code makes
     # coroutines ready and returns or THROWS (the outermost activation is left by the exception: full drain all the
     # same); a coroutine body left by an exception
@@ -393,9 +396,6 @@ def run(ctx):
             elif name == "queue":
                 # quick: queue<void> push/pop without pause() steps (a quarter of the graph; the full one is in thorough)
                 replay_config(ctx, rp, name, constants={"Kinds": '{"qo", "qd", "qa"}'}, max_programs=cap, must_skip=("Pause",))
-            elif name == "selffree":
-                # quick: two free steps per coroutine (plus the forced co_await of a held own handle); three in thorough
-                replay_config(ctx, rp, name, constants={"MaxSteps": 2}, max_programs=cap)
             else:
                 replay_config(ctx, rp, name, max_programs=cap)
     else:
@@ -414,6 +414,7 @@ def run(ctx):
                                                         Kinds='{"po", "pr", "pw", "px", "rd", "pa", "aw"}'))
         replay_config(ctx, rp, "accum", "accum_pa", dict(MaxSteps=2, Kinds='{"ha", "hm", "hd", "hw", "hf", "aw", "pa"}'))
         replay_config(ctx, rp, "accum", "accum_n4", dict(N=4, Roots=1, NatSteps=1))
+        replay_config(ctx, rp, "selffree", "selffree_s3", dict(S3, Kinds='{"hs", "hd", "hw", "pk", "hy"}'), must_skip=("PoolCancelled",))
         replay_config(ctx, rp, "throw", "throw_r3", dict(Roots=3))
         # the exception of a child reaches the coroutine that co_awaits it
         replay_config(ctx, rp, "throw", "throw_sc", dict(NatSteps=2, Kinds='{"aw", "rd", "rx", "sc"}'),
@@ -457,6 +458,8 @@ def run(ctx):
     ctx.assume("own handle (co_await self()): the generated programs use it as documented - the suspend point carrying it is "
                "co_awaited by its coroutine (any position, any number of other handles) or discarded right before a bare "
                "suspension (hand-made yield); they never flush or destroy it while the coroutine goes on running or finishes")
+    ctx.assume("cancelled co_await pool: only the form 'the pool is already stopped when awaited' (a separate, stopped pool "
+               "object) is in the alphabet; stop()/destructor called by a coroutine while requests wait in the pool is not")
     ctx.assume("install_queue_and_call(fn) / create_suspend_point(fn) with a throwing fn are entered from native code only "
                "(inside a coroutine: create_suspend_point only); create_suspend_point hands the collected coroutines over in "
                "REVERSE queue order (taken from the back of the deque): mirrored from the code, the property does not fix "
